@@ -56,13 +56,23 @@ class IntegrateFacts:
         dens = [n for n in self.cfg.nodes if n.ast is not None and n.id in self.loop_nodes and n.kind == 'stmt'
                 and isinstance(n.ast, ast.Assign) and isinstance(n.ast.value, ast.Call)
                 and isinstance(n.ast.value.func, ast.Attribute) and n.ast.value.func.attr == DENSITY_CALL]
-        if len(dens) != 1:
-            raise AnalysisError('_integrate: density call is not a single assignment in the loop')
-        self.density_node = dens[0]
-        tgt = self.density_node.ast.targets[0]
-        if not (isinstance(tgt, ast.Tuple) and len(tgt.elts) == 2 and all(isinstance(e, ast.Name) for e in tgt.elts)):
-            raise AnalysisError('_integrate: density call result is not unpacked into two names')
-        self.rho, self.a = tgt.elts[0].id, tgt.elts[1].id
+        if not dens:
+            raise AnalysisError('_integrate: the density call is not an assignment in the loop')
+        # the step's query: the one that runs on every iteration (not under a guard); further queries (a refresh
+        # before a terminal row, say) are kept and must ask for the same altitude expression
+        cdep = self.cfg.control_dependence()
+        uncond = [n for n in dens if all(self.cfg.nodes[t] is self.loop_head for t, _l in cdep[n.id])]
+        self.density_node = (uncond or dens)[0]
+        self.density_nodes = dens
+        names = set()
+        for n in dens:
+            tgt = n.ast.targets[0]
+            if not (isinstance(tgt, ast.Tuple) and len(tgt.elts) == 2 and all(isinstance(e, ast.Name) for e in tgt.elts)):
+                raise AnalysisError('_integrate: density call result is not unpacked into two names')
+            names.add((tgt.elts[0].id, tgt.elts[1].id))
+        if len(names) != 1:
+            raise AnalysisError(f'_integrate: the density queries are unpacked into different names: {sorted(names)}')
+        self.rho, self.a = next(iter(names))
         # should_record call
         self.record_calls = [c for c in ast.walk(self.loop) if isinstance(c, ast.Call)
                              and isinstance(c.func, ast.Attribute) and c.func.attr == 'should_record']
@@ -161,16 +171,22 @@ def check_row_sites(prog: Program, rep, rule: str) -> None:
         if isinstance(m, ast.Name):
             defs = F.defs_reaching(call, m.id)
             bad = []
+            step_alt = norm(F.density_node.ast.value.args[0]) if F.density_node.ast.value.args else ''
             for d in defs:
-                if d is F.density_node and m.id == F.a:
+                if d in F.density_nodes and m.id == F.a:
+                    alt = norm(d.ast.value.args[0]) if d.ast.value.args else ''
+                    if alt != step_alt:
+                        bad.append(d)
+                        why = (f'the query at line {d.line} asks for altitude `{alt}`, the step\'s query for `{step_alt}`: '
+                               f'not the local speed of sound; ')
                     continue
                 val = _assigned_value(d, m.id)
                 if val is not None and not F.in_loop(d) and isinstance(val, ast.Constant):
                     continue        # placeholder before the loop
                 bad.append(d)
-            ok = bool(defs) and not bad and any(d is F.density_node for d in defs)
+            ok = bool(defs) and not bad and any(d in F.density_nodes for d in defs)
             if not ok:
-                why = 'reaching definition(s) ' + '; '.join(f'line {d.line}: {d.text()[:60]}' for d in (bad or defs))
+                why += 'reaching definition(s) ' + '; '.join(f'line {d.line}: {d.text()[:60]}' for d in (bad or defs))
         elif isinstance(m, ast.Attribute) and isinstance(m.value, ast.Name) and m.value.id in record_result_names \
                 and m.attr == 'mach':
             # the filter receives the density call's Mach reference (checked at the should_record call)
